@@ -660,7 +660,8 @@ Section Client.
      reply could not be parsed, is an encapsulation error, carries no data, or the split raises *)
   Definition multi_datas (raw : bytes) : list bytes :=
     let r := parse_unit raw in
-    if is_some (r_error r) || negb (opt_is (r_command_status r) SUCCESS) then [] else
+    if is_some (r_error r) || negb (opt_is (r_command_status r) SUCCESS)
+       || negb (match slice 49 50 raw with [0] => true | _ => false end) then [] else     (* raw[49:50] != b"\x00" *)
     match Reply.r_data r with
     | None => []
     | Some [] => []
@@ -668,6 +669,19 @@ Section Client.
                    | Reply.ROk ds => ds
                    | RErr _ _ => []
                    end
+    end.
+
+  (* the requests of a multi-service packet and their tag_only_message()s *)
+  Fixpoint collect_reads (paths : list (Z * (preq * bytes))) (ids : list Z) : res (list (Z * preq) * list bytes) :=
+    match ids with
+    | [] => Ok ([], [])
+    | i :: r =>
+        match zget i paths with
+        | None => Err (Foreign KeyError)
+        | Some (q, path) =>
+            let* m := read_message path (pq_elements q) in
+            let* (qs, ms) := collect_reads paths r in Ok ((i, q) :: qs, m :: ms)
+        end
     end.
 
   (* one packet of the plan *)
@@ -699,18 +713,7 @@ Section Client.
             end
         end
     | PMulti ids =>
-        let fix collect (ids : list Z) : res (list (Z * preq) * list bytes) :=
-          match ids with
-          | [] => Ok ([], [])
-          | i :: r =>
-              match zget i paths with
-              | None => Err (Foreign KeyError)
-              | Some (q, path) =>
-                  let* m := read_message path (pq_elements q) in
-                  let* (qs, ms) := collect r in Ok ((i, q) :: qs, m :: ms)
-              end
-          end in
-        match (let* (qs, ms) := collect ids in let* msg := multi_message ms in Ok (qs, msg)) with
+        match (let* (qs, ms) := collect_reads paths ids in let* msg := multi_message ms in Ok (qs, msg)) with
         | Err e => (st, [], Raise e)
         | Ok (qs, msg) =>
             match send st msg with
@@ -776,14 +779,19 @@ Section Client.
     | t :: r => (i, t, parse_tag_request tags t) :: parse_requested tags r (i + 1)
     end.
 
-  (* the paths (request.build_message() of every valid request, in order; an exception escapes) *)
-  Fixpoint build_paths (use_ids : bool) (parsed : list (Z * text * res preq)) : res (list (Z * (preq * bytes))) :=
+  (* the paths (request.build_message() of every valid request, in order); a request that cannot be
+     built (an index that is not a number, a count that is not a UINT) fails alone *)
+  Definition build_one (use_ids : bool) (q : preq) : res bytes :=
+    let* p := read_path use_ids q in
+    let* _ := read_message p (pq_elements q) in Ok p.
+  Fixpoint build_paths (use_ids : bool) (parsed : list (Z * text * res preq)) : list (Z * (preq * bytes)) :=
     match parsed with
-    | [] => Ok []
+    | [] => []
     | (i, _, Ok q) :: r =>
-        let* p := read_path use_ids q in
-        let* _ := read_message p (pq_elements q) in
-        let* rest := build_paths use_ids r in Ok ((i, (q, p)) :: rest)
+        match build_one use_ids q with
+        | Ok p => (i, (q, p)) :: build_paths use_ids r
+        | Err _ => build_paths use_ids r            (* tag_data["error"] = "Failed to build request - ..." *)
+        end
     | (_, _, Err _) :: r => build_paths use_ids r
     end.
 
@@ -800,24 +808,21 @@ Section Client.
   Definition read (fuel : nat) (cfg : ccfg) (tags : tagdb) (st : St) (reqs : list text)
     : St * list bytes * out (list rtag) :=
     let parsed := parse_requested tags reqs 0 in
-    match build_paths (c_use_ids cfg) parsed with
-    | Err e => (st, [], Raise e)
-    | Ok paths =>
-        let plan := read_build_requests (c_conn cfg) (c_micro800 cfg) (plan_input paths parsed) in
-        match run_packets fuel cfg paths st plan [] [] with
-        | (st1, sent, Done rs) =>
-            (st1, sent,
-             Done (map (fun e => let '(i, t, rq) := e in
-                          match rq with
-                          | Err _ => err_tag t
-                          | Ok q => match rget i rs with
-                                    | Some r => post_read q r
-                                    | None => err_tag t             (* KeyError, caught per tag *)
-                                    end
-                          end) parsed))
-        | (st1, sent, Raise e) => (st1, sent, Raise e)
-        | (st1, sent, NoFuel) => (st1, sent, NoFuel)
-        end
+    let paths := build_paths (c_use_ids cfg) parsed in
+    let plan := read_build_requests (c_conn cfg) (c_micro800 cfg) (plan_input paths parsed) in
+    match run_packets fuel cfg paths st plan [] [] with
+    | (st1, sent, Done rs) =>
+        (st1, sent,
+         Done (map (fun e => let '(i, t, rq) := e in
+                      match rq with
+                      | Err _ => err_tag t
+                      | Ok q => match rget i rs with
+                                | Some r => post_read q r
+                                | None => err_tag t       (* a build error recorded in tag_data, or a KeyError caught per tag *)
+                                end
+                      end) parsed))
+    | (st1, sent, Raise e) => (st1, sent, Raise e)
+    | (st1, sent, NoFuel) => (st1, sent, NoFuel)
     end.
 End Client.
 
